@@ -371,6 +371,28 @@ def run(ck, F):
                     ck.note(f'{inst}: {THROW_ALLOW[t2]}')
                     continue
                 ck.check(R4, inst, ok, f'{f["id"]} throws {t}, which is not derived from std::logic_error', loc=f['loc'], fn=f['id'])
+    # ---------------------------------------------------------------- size() agrees with the storage after a failed growth
+    R4c = ck.rule('C14.growth-failure-leaves-size', 'when the standard container behind a sequence fails to grow (std::bad_alloc from '
+                  'emplace_after / emplace_back, before anything is linked), push_back has not yet changed any member of the sequence: '
+                  'a length kept in a member and incremented first would stay one ahead of the storage, and size(), end() and the bounds '
+                  'test of get() would then admit an element that does not exist', floor=3)
+    Sg = Sym(F, opaque=contracts.default_opaque(F), max_depth=32)
+    Sg.growth_may_fail = True
+    for f in sorted((f for f in F.fn.values() if f['name'] == 'push_back' and f.get('body')
+                     and (f.get('parent') or '').startswith(('ipr::impl::obj_list<', 'ipr::impl::obj_sequence<'))), key=lambda f: f['id']):
+        try:
+            outs = Sg.run(f['id'])
+        except Unsupported as e:
+            raise AnalysisBroken(f'{f["id"]}: {e}')
+        fails = [(st, v) for st, k, v in outs if k == 'throw' and v == 'std::bad_alloc']
+        if not fails:
+            raise AnalysisBroken(f'{f["id"]}: no growth of a standard container found in push_back')
+        changed = sorted({contracts.render(k, st, {}) for st, _v in fails for k, val in st.symstore.items()
+                          if isinstance(k, tuple) and k[:1] == ('fld',) and k[1] == ('sym', 'this') and val != k})
+        ck.check(R4c, contracts.short(f['parent']) + '::push_back/' + str(len(f['params'])), not changed,
+                 f'{f["id"]}: when the growth fails, {changed} has already been changed: the sequence reports a length its storage does not have',
+                 loc=f['loc'], fn=f['id'])
+
     # ---------------------------------------------------------------- a refusal must be able to leave the function
     R4b = ck.rule('C14.noexcept-honest', 'a function written noexcept, and every destructor, has no path on which an exception is raised: '
                   'an exception that meets a noexcept boundary ends the program (std::terminate) instead of reaching the caller as a '
